@@ -43,6 +43,7 @@ import (
 
 var fset = token.NewFileSet()
 var repo string
+var width = 64 // width of the integers of the target being translated (int, int64: 64; int32: 32)
 
 func die(format string, a ...any) {
 	fmt.Fprintf(os.Stderr, "arithfacts: "+format+"\n", a...)
@@ -60,24 +61,31 @@ type target struct {
 	file     string // path below the repository root
 	fn       string // function (or method) name
 	variable string // the variable whose value is wanted; "return" for the function's (single) return value
-	pick     string // "" the right-hand side itself; "make2" the length argument of make([]T, n)
+	pick     string // "" the right-hand side itself; "make2" the length argument of make([]T, n); "arg:<f>:<k>" the first argument of the k-th call of method/function f in the body (variable is ignored)
+	bits     int    // 0 = 64; 32 for int32 arithmetic
 	doc      string
 }
 
 var targets = []target{
-	{"generateMessageId", "internal/utils/utils.go", "GenerateMessageId", "return", "",
+	{"generateMessageId", "internal/utils/utils.go", "GenerateMessageId", "return", "", 0,
 		"utils.GenerateMessageId, the clock reading as a parameter"},
-	{"encryptPaddedLen", "internal/aes_ige/aes.go", "Encrypt", "data", "make2",
+	{"encryptPaddedLen", "internal/aes_ige/aes.go", "Encrypt", "data", "make2", 0,
 		"aes_ige.Encrypt: length of the zero-padded plaintext buffer"},
-	{"tempNeedToAdd", "internal/aes_ige/aes.go", "EncryptMessageWithTempKeys", "needToAdd", "",
+	{"tempNeedToAdd", "internal/aes_ige/aes.go", "EncryptMessageWithTempKeys", "needToAdd", "", 0,
 		"aes_ige.EncryptMessageWithTempKeys: number of random padding bytes"},
-	{"abridgedWords", "internal/mode/arbiged.go", "WriteMsg", "msgLength", "",
+	{"abridgedWords", "internal/mode/arbiged.go", "WriteMsg", "msgLength", "", 0,
 		"abridged WriteMsg: the length in words"},
-	{"abridgedB1", "internal/mode/arbiged.go", "WriteMsg", "b1", "", "abridged WriteMsg: first length byte of the long form"},
-	{"abridgedB2", "internal/mode/arbiged.go", "WriteMsg", "b2", "", "abridged WriteMsg: second length byte of the long form"},
-	{"abridgedB3", "internal/mode/arbiged.go", "WriteMsg", "b3", "", "abridged WriteMsg: third length byte of the long form"},
-	{"encryptedParityMod", "internal/mtproto/messages/messages.go", "DeserializeEncrypted", "mod", "",
+	{"abridgedB1", "internal/mode/arbiged.go", "WriteMsg", "b1", "", 0, "abridged WriteMsg: first length byte of the long form"},
+	{"abridgedB2", "internal/mode/arbiged.go", "WriteMsg", "b2", "", 0, "abridged WriteMsg: second length byte of the long form"},
+	{"abridgedB3", "internal/mode/arbiged.go", "WriteMsg", "b3", "", 0, "abridged WriteMsg: third length byte of the long form"},
+	{"encryptedParityMod", "internal/mtproto/messages/messages.go", "DeserializeEncrypted", "mod", "", 0,
 		"messages.DeserializeEncrypted: msg_id & 3, the value the server-parity test looks at"},
+	{"sendPacketMsgId", "network.go", "sendPacket", "msgID", "final", 0,
+		"sendPacket: the msg_id written, after the bump past the last one (`if msgID <= m.lastMsgID { msgID = m.lastMsgID + 4 }`)"},
+	{"seqNoContent", "internal/mtproto/messages/messages.go", "serializePacket", "", "arg:PutInt:1", 32,
+		"serializePacket: the seq_no written for a message that requires acknowledgement"},
+	{"seqNoService", "internal/mtproto/messages/messages.go", "serializePacket", "", "arg:PutInt:2", 32,
+		"serializePacket: the seq_no written for a message that does not"},
 }
 
 type env struct {
@@ -88,6 +96,7 @@ type env struct {
 	bound   map[string]string   // name -> Lean term
 	params  []string
 	pset    map[string]bool
+	renamed map[string]string // names made by the translator -> the source text they stand for
 }
 
 var identRe = regexp.MustCompile(`[^A-Za-z0-9_]+`)
@@ -149,7 +158,7 @@ func lit(v string) string {
 	if err != nil {
 		die("literal %s", v)
 	}
-	return fmt.Sprintf("%d#64", n)
+	return fmt.Sprintf("%d#%d", n, width)
 }
 
 // tr translates an integer expression; the result is a Lean term of type BitVec 64
@@ -218,10 +227,12 @@ func (e *env) tr(x ast.Expr) string {
 		case token.AND_NOT:
 			return "(" + a + " &&& ~~~" + b + ")"
 		}
+	case *condExpr:
+		return "(if " + e.trBool(v.cond) + " then " + e.tr(v.then) + " else " + e.tr(v.els) + ")"
 	case *ast.CallExpr:
 		if id, ok := v.Fun.(*ast.Ident); ok && len(v.Args) == 1 {
 			switch id.Name {
-			case "int", "int64":
+			case "int", "int64", "int32":
 				return e.tr(v.Args[0])
 			}
 		}
@@ -238,11 +249,63 @@ func (e *env) tr(x ast.Expr) string {
 	return ""
 }
 
+// condExpr: `if cond { x = then }` behind a definition of x: the value of x afterwards
+type condExpr struct {
+	ast.BadExpr
+	cond      ast.Expr
+	then, els ast.Expr
+}
+
+// trBool translates a condition (comparisons of integers, && || !)
+func (e *env) trBool(x ast.Expr) string {
+	switch v := x.(type) {
+	case *ast.ParenExpr:
+		return e.trBool(v.X)
+	case *ast.UnaryExpr:
+		if v.Op == token.NOT {
+			return "(!" + e.trBool(v.X) + ")"
+		}
+	case *ast.BinaryExpr:
+		switch v.Op {
+		case token.LAND:
+			return "(" + e.trBool(v.X) + " && " + e.trBool(v.Y) + ")"
+		case token.LOR:
+			return "(" + e.trBool(v.X) + " || " + e.trBool(v.Y) + ")"
+		}
+		a, b := e.tr(v.X), e.tr(v.Y)
+		switch v.Op {
+		case token.EQL:
+			return "(" + a + " == " + b + ")"
+		case token.NEQ:
+			return "(" + a + " != " + b + ")"
+		case token.LSS:
+			return "(BitVec.slt " + a + " " + b + ")"
+		case token.LEQ:
+			return "(BitVec.sle " + a + " " + b + ")"
+		case token.GTR:
+			return "(BitVec.slt " + b + " " + a + ")"
+		case token.GEQ:
+			return "(BitVec.sle " + b + " " + a + ")"
+		}
+	}
+	die("%s: condition not translated", src(x))
+	return ""
+}
+
 func (e *env) bind(name string, x ast.Expr) {
 	if _, ok := e.bound[name]; ok {
 		return
 	}
 	e.bound[name] = "" // guards against a cycle
+	if ce, ok := x.(*condExpr); ok {
+		// x0 := <els>; if cond { x = then }: the earlier value gets a name of its own
+		first := name + "0"
+		e.bind2(first, ce.els)
+		t := "(if " + e.trBool(substIdent(ce.cond, name, first)) + " then " + e.tr(substIdent(ce.then, name, first)) + " else " + first + ")"
+		e.bound[name] = t
+		e.order = append(e.order, name)
+		return
+	}
 	if c, ok := x.(*ast.CallExpr); ok {
 		// a call that is not a conversion: the variable itself is the parameter
 		if id, ok := c.Fun.(*ast.Ident); !ok || (id.Name != "int" && id.Name != "int64" && id.Name != "byte") {
@@ -258,6 +321,38 @@ func (e *env) bind(name string, x ast.Expr) {
 	e.order = append(e.order, name)
 }
 
+// bind2 binds a name that does not occur in the source (the earlier value of a reassigned variable)
+func (e *env) bind2(name string, x ast.Expr) {
+	if c, ok := x.(*ast.CallExpr); ok {
+		if id, ok := c.Fun.(*ast.Ident); !ok || (id.Name != "int" && id.Name != "int64" && id.Name != "int32") {
+			e.bound[name] = "param"
+			e.pset[name] = true
+			e.params = append(e.params, name)
+			e.renamed[name] = src(x)
+			return
+		}
+	}
+	e.bound[name] = e.tr(x)
+	e.order = append(e.order, name)
+}
+
+// substIdent: x with every identifier `from` replaced by `to` (a copy; only the node kinds tr/trBool know)
+func substIdent(x ast.Expr, from, to string) ast.Expr {
+	switch v := x.(type) {
+	case *ast.Ident:
+		if v.Name == from {
+			return &ast.Ident{Name: to}
+		}
+	case *ast.ParenExpr:
+		return &ast.ParenExpr{X: substIdent(v.X, from, to)}
+	case *ast.UnaryExpr:
+		return &ast.UnaryExpr{Op: v.Op, X: substIdent(v.X, from, to)}
+	case *ast.BinaryExpr:
+		return &ast.BinaryExpr{X: substIdent(v.X, from, to), Op: v.Op, Y: substIdent(v.Y, from, to)}
+	}
+	return x
+}
+
 func findFunc(f *ast.File, name string) *ast.FuncDecl {
 	for _, d := range f.Decls {
 		if fd, ok := d.(*ast.FuncDecl); ok && fd.Name.Name == name && fd.Body != nil {
@@ -265,6 +360,18 @@ func findFunc(f *ast.File, name string) *ast.FuncDecl {
 		}
 	}
 	return nil
+}
+
+// oneAssign: `if cond { x = e }` with nothing else
+func oneAssign(v *ast.IfStmt) (*ast.AssignStmt, bool) {
+	if v.Init != nil || v.Else != nil || len(v.Body.List) != 1 {
+		return nil, false
+	}
+	as, ok := v.Body.List[0].(*ast.AssignStmt)
+	if !ok || as.Tok != token.ASSIGN || len(as.Lhs) != 1 || len(as.Rhs) != 1 {
+		return nil, false
+	}
+	return as, true
 }
 
 func translate(t target) (string, string) {
@@ -277,7 +384,11 @@ func translate(t target) (string, string) {
 	if fd == nil {
 		die("%s: function %s not found", t.file, t.fn)
 	}
-	e := &env{file: f, consts: map[string]ast.Expr{}, assigns: map[string]ast.Expr{}, bound: map[string]string{}, pset: map[string]bool{}}
+	width = 64
+	if t.bits != 0 {
+		width = t.bits
+	}
+	e := &env{file: f, consts: map[string]ast.Expr{}, assigns: map[string]ast.Expr{}, bound: map[string]string{}, pset: map[string]bool{}, renamed: map[string]string{}}
 	for _, d := range f.Decls { // file-level constants
 		if gd, ok := d.(*ast.GenDecl); ok && gd.Tok == token.CONST {
 			for _, s := range gd.Specs {
@@ -298,6 +409,16 @@ func translate(t target) (string, string) {
 		for _, s := range list {
 			switch v := s.(type) {
 			case *ast.DeclStmt:
+				if gd, ok := v.Decl.(*ast.GenDecl); ok && gd.Tok == token.VAR {
+					for _, sp := range gd.Specs {
+						vs := sp.(*ast.ValueSpec)
+						for i, n := range vs.Names {
+							if i < len(vs.Values) {
+								e.assigns[n.Name] = vs.Values[i]
+							}
+						}
+					}
+				}
 				if gd, ok := v.Decl.(*ast.GenDecl); ok && gd.Tok == token.CONST {
 					for _, sp := range gd.Specs {
 						vs := sp.(*ast.ValueSpec)
@@ -312,7 +433,7 @@ func translate(t target) (string, string) {
 				if len(v.Lhs) == len(v.Rhs) {
 					for i, l := range v.Lhs {
 						if id, ok := l.(*ast.Ident); ok {
-							if id.Name == t.variable {
+							if id.Name == t.variable && t.pick != "final" && !strings.HasPrefix(t.pick, "arg:") {
 								want = v.Rhs[i]
 								sources = append(sources, src(v))
 								return true
@@ -332,6 +453,16 @@ func translate(t target) (string, string) {
 					return true
 				}
 			case *ast.IfStmt:
+				// `if cond { x = e }` (no else, no init) behind a definition of x: x becomes the conditional value
+				if as, ok := oneAssign(v); ok {
+					if id, ok := as.Lhs[0].(*ast.Ident); ok {
+						if prev, defined := e.assigns[id.Name]; defined {
+							e.assigns[id.Name] = &condExpr{cond: v.Cond, then: as.Rhs[0], els: prev}
+							sources = append(sources, src(v))
+							continue
+						}
+					}
+				}
 				if walk(v.Body.List) {
 					return true
 				}
@@ -342,8 +473,42 @@ func translate(t target) (string, string) {
 		}
 		return false
 	}
-	if !walk(fd.Body.List) || want == nil {
-		die("%s %s: no definition of %s found", t.file, t.fn, t.variable)
+	found := walk(fd.Body.List)
+	if t.pick == "final" {
+		// the value of the variable at the end of the straight-line part of the body
+		if x, ok := e.assigns[t.variable]; ok {
+			want, found = &ast.Ident{Name: t.variable}, true
+			_ = x
+		}
+	}
+	if strings.HasPrefix(t.pick, "arg:") {
+		p := strings.Split(t.pick, ":")
+		k, _ := strconv.Atoi(p[2])
+		n := 0
+		ast.Inspect(fd.Body, func(nd ast.Node) bool {
+			if c, ok := nd.(*ast.CallExpr); ok && want == nil && len(c.Args) >= 1 {
+				name := ""
+				switch f := c.Fun.(type) {
+				case *ast.Ident:
+					name = f.Name
+				case *ast.SelectorExpr:
+					name = f.Sel.Name
+				}
+				if name == p[1] {
+					if n++; n == k {
+						want, found = c.Args[0], true
+						sources = append(sources, src(c))
+					}
+				}
+			}
+			return true
+		})
+	}
+	if !found || want == nil {
+		die("%s %s: no definition of %s found", t.file, t.fn, t.variable+t.pick)
+	}
+	if len(sources) == 0 {
+		sources = append(sources, t.variable)
 	}
 	if t.pick == "make2" {
 		c, ok := want.(*ast.CallExpr)
@@ -352,21 +517,25 @@ func translate(t target) (string, string) {
 		}
 		want = c.Args[1]
 	}
-	width := 64
+	outWidth := width
 	if c, ok := want.(*ast.CallExpr); ok {
 		if id, ok := c.Fun.(*ast.Ident); ok && id.Name == "byte" && len(c.Args) == 1 {
-			width = 8
+			outWidth = 8
 			want = c.Args[0]
 		}
 	}
 	body := e.tr(want)
-	if width == 8 {
+	if outWidth == 8 {
 		body = "BitVec.setWidth 8 " + body
 	}
 	var b strings.Builder
 	fmt.Fprintf(&b, "/-- %s (%s, func %s): `%s`", t.doc, t.file, t.fn, strings.ReplaceAll(sources[len(sources)-1], "`", "'"))
 	for _, n := range e.order {
 		if x, ok := e.assigns[n]; ok {
+			if ce, isCond := x.(*condExpr); isCond {
+				fmt.Fprintf(&b, "; `%s := %s; if %s { %s = %s }`", n, src(ce.els), src(ce.cond), n, src(ce.then))
+				continue
+			}
 			fmt.Fprintf(&b, "; `%s := %s`", n, src(x))
 		} else if x, ok := e.consts[n]; ok {
 			fmt.Fprintf(&b, "; `const %s = %s`", n, src(x))
@@ -375,11 +544,11 @@ func translate(t target) (string, string) {
 	b.WriteString(" -/\n")
 	fmt.Fprintf(&b, "def %s", t.lean)
 	for _, p := range e.params {
-		fmt.Fprintf(&b, " (%s : BitVec 64)", p)
+		fmt.Fprintf(&b, " (%s : BitVec %d)", p, width)
 	}
-	fmt.Fprintf(&b, " : BitVec %d :=\n", width)
+	fmt.Fprintf(&b, " : BitVec %d :=\n", outWidth)
 	for _, n := range e.order {
-		fmt.Fprintf(&b, "  let %s : BitVec 64 := %s\n", n, e.bound[n])
+		fmt.Fprintf(&b, "  let %s : BitVec %d := %s\n", n, width, e.bound[n])
 	}
 	fmt.Fprintf(&b, "  %s\n", body)
 	sig := t.lean + "(" + strings.Join(e.params, ",") + ")"
